@@ -7,6 +7,7 @@ package keeper_test
 
 import (
 	"fmt"
+	"strings"
 	"testing"
 	"time"
 
@@ -126,6 +127,42 @@ func TestVerifScenario_C04_referrer_bundle(t *testing.T) {
 		return
 	}
 	fmt.Printf("SCENARIO-OK paid %s referrer received %s (commission %d%%)\n", paid, got, params.ReferralCommission)
+}
+
+// C04: a payer that names itself as the referrer is not a "distinct valid referrer": no discount, and the commission goes to
+// the stakers' fee pool. bech32 accepts the upper-case spelling of an address, so the payer can sign as one spelling and
+// name the other.
+func TestVerifScenario_C04_self_referral_by_spelling(t *testing.T) {
+	k, l, ctx := sSetup(t)
+	ms := keeper.NewMsgServerImpl(*k)
+	buyer, other := sAddr(1), sAddr(2)
+	sFund(l, buyer, 1_000_000_000_000)
+	sFund(l, other, 1_000_000_000_000)
+	// reference: the same purchase by another account with no referral
+	if _, err := ms.BuyStorage(sdk.WrapSDKContext(ctx), &types.MsgBuyStorage{Creator: other.String(), ForAddress: other.String(), DurationDays: 30, Bytes: 3_000_000_000, PaymentDenom: "ujkl", Referral: ""}); err != nil {
+		fmt.Println("SCENARIO-ERROR", err)
+		return
+	}
+	full := sdk.NewInt(1_000_000_000_000).Sub(l.get(other).AmountOf("ujkl"))
+	msg := &types.MsgBuyStorage{Creator: strings.ToUpper(buyer.String()), ForAddress: buyer.String(), DurationDays: 30, Bytes: 3_000_000_000, PaymentDenom: "ujkl", Referral: buyer.String()}
+	if err := msg.ValidateBasic(); err != nil {
+		fmt.Println("SCENARIO-OK upper-case spelling refused by ValidateBasic:", err)
+		return
+	}
+	if sg := msg.GetSigners(); len(sg) != 1 || !sg[0].Equals(buyer) {
+		fmt.Println("SCENARIO-ERROR the upper-case spelling does not name the buyer's account")
+		return
+	}
+	if _, err := ms.BuyStorage(sdk.WrapSDKContext(ctx), msg); err != nil {
+		fmt.Println("SCENARIO-OK", err)
+		return
+	}
+	net := sdk.NewInt(1_000_000_000_000).Sub(l.get(buyer).AmountOf("ujkl"))
+	if !net.Equal(full) {
+		fmt.Printf("SCENARIO-VIOLATION account %s, signing as %s and naming itself (%s) as referrer, is out of pocket %s for a purchase priced %s (discount and commission paid to itself)\n", buyer, msg.Creator, msg.Referral, net, full)
+		return
+	}
+	fmt.Printf("SCENARIO-OK a self-referral under another spelling pays the full price %s\n", full)
 }
 
 // C05/C07: stateless validation must reject sizes that make block processing panic or usage negative.
